@@ -467,6 +467,11 @@ def check_condense(ctx, A, b, x, split, ref, tag, expand=True, solver=None, posi
     ctx.check("no-argument-modified", not ch, mech="argument-modified:condense", changed=ch, **tag)
     note_collection(ctx, split)
     has_b = ref.b is not None or ref.Md is not None
+    arity = (2 if has_b else 1) + (2 if expand else 0)
+    got_arity = len(out) if isinstance(out, tuple) else 1
+    if not ctx.check("condense-return-arity", got_arity == arity, mech=mk("return-arity"), got=got_arity, want=arity,
+                     **tag):
+        return None
     Ac, bc, xr, Ir = unpack_condensed(out, has_b, expand)
     if Ir is None:
         Iord = split.Iset if not (split.name == "I" and isinstance(split.obj, np.ndarray)) \
